@@ -151,6 +151,7 @@ func (db *DB) Open() error {
 }
 
 func (db *DB) Close() error {
+	var rotateErr error
 	err := func() error {
 		db.rwLock.Lock()
 		defer db.rwLock.Unlock()
@@ -165,10 +166,9 @@ func (db *DB) Close() error {
 
 		db.closed = true
 
-		err := db.rotateWalAndFlushMemstore()
-		if err != nil {
-			return err
-		}
+		// when the last rotation fails the database is closed nevertheless (a second Close is refused): the goroutines
+		// are stopped and every handle is released below, what was not flushed is still in the WAL
+		rotateErr = db.rotateWalAndFlushMemstore()
 
 		close(db.storeFlushChannel)
 		<-db.doneFlushChannel
@@ -186,7 +186,7 @@ func (db *DB) Close() error {
 		<-db.doneCompactionChannel
 	}
 
-	return errors.Join(db.wal.Close(), db.sstableManager.currentSSTable().Close())
+	return errors.Join(rotateErr, db.wal.Close(), db.sstableManager.currentSSTable().Close())
 }
 
 func (db *DB) Get(key string) (string, error) {
